@@ -161,7 +161,7 @@ def setoptConvert (orc : Oracle) (k : Nat) (o : Opt) (value : Option Bytes) :
   | .ptr =>
     if o.info.parseCb then
       (match orc k call with | .ptr p => .ok (.ptr p, [call]) | _ => .error ([.callback], [call]))
-    else .error ([], [])
+    else .error ([.noParseCb], [])
   | .sec => .ok (.sec, [])
   | .func => .error ([.other], [])
 
